@@ -1058,48 +1058,41 @@ XObject::equals(
             const XObject&          theRHS,
             XPathExecutionContext&  executionContext) const
 {
-    if (this == &theRHS)
+    const eObjectType   theLHSType = getType();
+
+    if (theLHSType == eTypeUnknown)
     {
-        return true;
+        return this == &theRHS ? true : false;
+    }
+    else if (theLHSType == eTypeNull)
+    {
+        return theRHS.getType() == eTypeNull ? true : false;
+    }
+    else if (theLHSType == eTypeNodeSet)
+    {
+        return equalNodeSet(*this, theRHS, theRHS.getType(), executionContext);
     }
     else
     {
-        const eObjectType   theLHSType = getType();
+        const eObjectType   theRHSType = theRHS.getType();
 
-        if (theLHSType == eTypeUnknown)
+        if (theRHSType == eTypeNodeSet)
         {
-            return this == &theRHS ? true : false;
-        }
-        else if (theLHSType == eTypeNull)
-        {
-            return theRHS.getType() == eTypeNull ? true : false;
-        }
-        else if (theLHSType == eTypeNodeSet)
-        {
-            return equalNodeSet(*this, theRHS, theRHS.getType(), executionContext);
+            return equalNodeSet(theRHS, *this, theLHSType, executionContext);
         }
         else
         {
-            const eObjectType   theRHSType = theRHS.getType();
-
-            if (theRHSType == eTypeNodeSet)
+            if (theLHSType == eTypeBoolean || theRHSType == eTypeBoolean)
             {
-                return equalNodeSet(theRHS, *this, theLHSType, executionContext);
+                return boolean(executionContext) == theRHS.boolean(executionContext);
+            }
+            else if (theLHSType == eTypeNumber || theRHSType == eTypeNumber)
+            {
+                return DoubleSupport::equal(num(executionContext), theRHS.num(executionContext));
             }
             else
             {
-                if (theLHSType == eTypeBoolean || theRHSType == eTypeBoolean)
-                {
-                    return boolean(executionContext) == theRHS.boolean(executionContext);
-                }
-                else if (theLHSType == eTypeNumber || theRHSType == eTypeNumber)
-                {
-                    return DoubleSupport::equal(num(executionContext), theRHS.num(executionContext));
-                }
-                else
-                {
-                    return str(executionContext) == theRHS.str(executionContext);
-                }
+                return str(executionContext) == theRHS.str(executionContext);
             }
         }
     }
@@ -1112,48 +1105,41 @@ XObject::notEquals(
             const XObject&          theRHS,
             XPathExecutionContext&  executionContext) const
 {
-    if (this == &theRHS)
+    const eObjectType   theLHSType = getType();
+
+    if (theLHSType == eTypeUnknown)
     {
-        return false;
+        return this == &theRHS ? false : true;
+    }
+    else if (theLHSType == eTypeNull)
+    {
+        return theRHS.getType() == eTypeNull ? false : true;
+    }
+    else if (theLHSType == eTypeNodeSet)
+    {
+        return notEqualNodeSet(*this, theRHS, theRHS.getType(), executionContext);
     }
     else
     {
-        const eObjectType   theLHSType = getType();
+        const eObjectType   theRHSType = theRHS.getType();
 
-        if (theLHSType == eTypeUnknown)
+        if (theRHSType == eTypeNodeSet)
         {
-            return this == &theRHS ? false : true;
-        }
-        else if (theLHSType == eTypeNull)
-        {
-            return theRHS.getType() == eTypeNull ? false : true;
-        }
-        else if (theLHSType == eTypeNodeSet)
-        {
-            return notEqualNodeSet(*this, theRHS, theRHS.getType(), executionContext);
+            return notEqualNodeSet(theRHS, *this, theLHSType, executionContext);
         }
         else
         {
-            const eObjectType   theRHSType = theRHS.getType();
-
-            if (theRHSType == eTypeNodeSet)
+            if (theLHSType == eTypeBoolean || theRHSType == eTypeBoolean)
             {
-                return notEqualNodeSet(theRHS, *this, theLHSType, executionContext);
+                return boolean(executionContext) != theRHS.boolean(executionContext);
+            }
+            else if (theLHSType == eTypeNumber || theRHSType == eTypeNumber)
+            {
+                return DoubleSupport::notEqual(num(executionContext), theRHS.num(executionContext));
             }
             else
             {
-                if (theLHSType == eTypeBoolean || theRHSType == eTypeBoolean)
-                {
-                    return boolean(executionContext) != theRHS.boolean(executionContext);
-                }
-                else if (theLHSType == eTypeNumber || theRHSType == eTypeNumber)
-                {
-                    return DoubleSupport::notEqual(num(executionContext), theRHS.num(executionContext));
-                }
-                else
-                {
-                    return str(executionContext) != theRHS.str(executionContext);
-                }
+                return str(executionContext) != theRHS.str(executionContext);
             }
         }
     }
@@ -1166,30 +1152,23 @@ XObject::lessThan(
             const XObject&          theRHS,
             XPathExecutionContext&  executionContext) const
 {
-    if (this == &theRHS)
+    const eObjectType   theLHSType = getType();
+
+    if (theLHSType == eTypeNull || theLHSType == eTypeUnknown)
     {
         return false;
     }
+    else if (theLHSType == eTypeNodeSet)
+    {
+        return lessThanNodeSet(*this, theRHS, theRHS.getType(), executionContext);
+    }
+    else if (theRHS.getType() == eTypeNodeSet)
+    {
+        return greaterThanNodeSet(theRHS, *this, theLHSType, executionContext);
+    }
     else
     {
-        const eObjectType   theLHSType = getType();
-
-        if (theLHSType == eTypeNull || theLHSType == eTypeUnknown)
-        {
-            return false;
-        }
-        else if (theLHSType == eTypeNodeSet)
-        {
-            return lessThanNodeSet(*this, theRHS, theRHS.getType(), executionContext);
-        }
-        else if (theRHS.getType() == eTypeNodeSet)
-        {
-            return greaterThanNodeSet(theRHS, *this, theLHSType, executionContext);
-        }
-        else
-        {
-            return DoubleSupport::lessThan(num(executionContext), theRHS.num(executionContext));
-        }
+        return DoubleSupport::lessThan(num(executionContext), theRHS.num(executionContext));
     }
 }
 
@@ -1200,30 +1179,23 @@ XObject::lessThanOrEquals(
             const XObject&          theRHS,
             XPathExecutionContext&  executionContext) const
 {
-    if (this == &theRHS)
+    const eObjectType   theLHSType = getType();
+
+    if (theLHSType == eTypeNull || theLHSType == eTypeUnknown)
     {
         return false;
     }
+    else if (theLHSType == eTypeNodeSet)
+    {
+        return lessThanOrEqualNodeSet(*this, theRHS, theRHS.getType(), executionContext);
+    }
+    else if (theRHS.getType() == eTypeNodeSet)
+    {
+        return greaterThanOrEqualNodeSet(theRHS, *this, theLHSType, executionContext);
+    }
     else
     {
-        const eObjectType   theLHSType = getType();
-
-        if (theLHSType == eTypeNull || theLHSType == eTypeUnknown)
-        {
-            return false;
-        }
-        else if (theLHSType == eTypeNodeSet)
-        {
-            return lessThanOrEqualNodeSet(*this, theRHS, theRHS.getType(), executionContext);
-        }
-        else if (theRHS.getType() == eTypeNodeSet)
-        {
-            return greaterThanOrEqualNodeSet(theRHS, *this, theLHSType, executionContext);
-        }
-        else
-        {
-            return DoubleSupport::lessThanOrEqual(num(executionContext), theRHS.num(executionContext));
-        }
+        return DoubleSupport::lessThanOrEqual(num(executionContext), theRHS.num(executionContext));
     }
 }
 
@@ -1234,30 +1206,23 @@ XObject::greaterThan(
             const XObject&          theRHS,
             XPathExecutionContext&  executionContext) const
 {
-    if (this == &theRHS)
+    const eObjectType   theLHSType = getType();
+
+    if (theLHSType == eTypeNull || theLHSType == eTypeUnknown)
     {
         return false;
     }
+    else if (theLHSType == eTypeNodeSet)
+    {
+        return greaterThanNodeSet(*this, theRHS, theRHS.getType(), executionContext);
+    }
+    else if (theRHS.getType() == eTypeNodeSet)
+    {
+        return lessThanNodeSet(theRHS, *this, theLHSType, executionContext);
+    }
     else
     {
-        const eObjectType   theLHSType = getType();
-
-        if (theLHSType == eTypeNull || theLHSType == eTypeUnknown)
-        {
-            return false;
-        }
-        else if (theLHSType == eTypeNodeSet)
-        {
-            return greaterThanNodeSet(*this, theRHS, theRHS.getType(), executionContext);
-        }
-        else if (theRHS.getType() == eTypeNodeSet)
-        {
-            return lessThanNodeSet(theRHS, *this, theLHSType, executionContext);
-        }
-        else
-        {
-            return DoubleSupport::greaterThan(num(executionContext), theRHS.num(executionContext));
-        }
+        return DoubleSupport::greaterThan(num(executionContext), theRHS.num(executionContext));
     }
 }
 
@@ -1268,30 +1233,23 @@ XObject::greaterThanOrEquals(
             const XObject&          theRHS,
             XPathExecutionContext&  executionContext) const
 {
-    if (this == &theRHS)
+    const eObjectType   theLHSType = getType();
+
+    if (theLHSType == eTypeNull || theLHSType == eTypeUnknown)
     {
         return false;
     }
+    else if (theLHSType == eTypeNodeSet)
+    {
+        return greaterThanOrEqualNodeSet(*this, theRHS, theRHS.getType(), executionContext);
+    }
+    else if (theRHS.getType() == eTypeNodeSet)
+    {
+        return lessThanOrEqualNodeSet(theRHS, *this, theLHSType, executionContext);
+    }
     else
     {
-        const eObjectType   theLHSType = getType();
-
-        if (theLHSType == eTypeNull || theLHSType == eTypeUnknown)
-        {
-            return false;
-        }
-        else if (theLHSType == eTypeNodeSet)
-        {
-            return greaterThanOrEqualNodeSet(*this, theRHS, theRHS.getType(), executionContext);
-        }
-        else if (theRHS.getType() == eTypeNodeSet)
-        {
-            return lessThanOrEqualNodeSet(theRHS, *this, theLHSType, executionContext);
-        }
-        else
-        {
-            return DoubleSupport::greaterThanOrEqual(num(executionContext), theRHS.num(executionContext));
-        }
+        return DoubleSupport::greaterThanOrEqual(num(executionContext), theRHS.num(executionContext));
     }
 }
 
